@@ -1265,6 +1265,13 @@ def _check_c08(mt, sess):
         if not bproc:
             continue
         want = _adjust(bstate, own or 0)
+        if want is not None and _patch_saved(sess, t):
+            # between the patch's .cfi_remember_state and .cfi_restore_state
+            # the state at the insertion point sits on the save stack
+            import copy as _copy
+
+            want = _copy.deepcopy(want)
+            want["save_stack"] = list(want["save_stack"]) + [{"cfa": _copy.deepcopy(bstate["cfa"]), "registers": _copy.deepcopy(bstate["registers"])}]
         if deleted_any:
             # register rules that describe deleted instructions may be gone
             continue
@@ -1297,13 +1304,44 @@ def _patch_cfi(sess, tok):
     n = int(tok.id.rsplit(".", 1)[1])
     total = 0
     k = -1
+    saved = 0
     for l in lines:
         if "raw" in l and "cfi_adjust_cfa_offset" in l["raw"]:
             if k < n:
                 total += int(l["raw"].split()[-1])
+        elif l.get("raw") == ".cfi_remember_state":
+            if k < n:
+                saved = total
+        elif l.get("raw") == ".cfi_restore_state":
+            if k < n:
+                total = saved
         elif "label" not in l and not ("raw" in l and l["raw"].startswith(".cfi")):
             k += 1
     return total
+
+
+def _patch_saved(sess, tok):
+    """True if the patch instruction lies between the patch's own
+    .cfi_remember_state and .cfi_restore_state."""
+    import re
+
+    mo = re.match(r"s(\d+)o(\d+)i(\d+)", tok.origin if isinstance(tok.origin, str) else "")
+    if not mo or int(mo.group(1)) != sess.index:
+        return False
+    lines = (sess.desc["ops"][int(mo.group(2))].get("patch") or {}).get("lines") or []
+    n = int(tok.id.rsplit(".", 1)[1])
+    k = -1
+    inside = False
+    for l in lines:
+        if l.get("raw") == ".cfi_remember_state":
+            if k < n:
+                inside = True
+        elif l.get("raw") == ".cfi_restore_state":
+            if k < n:
+                inside = False
+        elif "label" not in l and not ("raw" in l and l["raw"].startswith(".cfi")):
+            k += 1
+    return inside
 
 
 def _adjust(state, delta):
